@@ -192,6 +192,7 @@ def run(M, rep, tier, only=None):
             rep.ok(R3, key)
 
     _r6(M, rep, ctx)
+    _r7(M, rep)
 
     # ---- R5 ---------------------------------------------------------------------------------------
     u = M.modules.get("nixio.util.util")
@@ -271,3 +272,40 @@ def _r6(M, rep, ctx):
                     break
             rep.check(R6, ident, bad is None and ngiven > 0, bad[1] if bad else "no path stores the given time",
                       site=f.file + ":%d" % f.node.lineno, detail=describe_path(bad[0]) if bad else None)
+
+
+def _r7(M, rep):
+    """C19.R7 -- the auto-update switch given at open time is the one the guards consult"""
+    R7 = rep.rule("C19.R7", "the switch given to File.open / File(...) is what the setters consult", floor=2,
+                  technique="field provenance on all abstract paths of the constructor entry points")
+    nctx = Ctx(M, coarse=False)
+    nctx.cfg.compose = False
+    g = nctx.member("File", "auto_update_timestamps", "getters")
+    field = None
+    if g is not None:
+        for p in nctx.paths(g, "File"):
+            if p.normal and p.terminal[1].t[0] == "attr" and p.terminal[1].t[1] == ("self",):
+                field = p.terminal[1].t[2]
+    rep.check(R7, "File.auto_update_timestamps", field is not None, "the switch is not read from a field of the file object", what="field %s" % field)
+    if field is None:
+        return
+    cctx = Ctx(M)
+    for name in ("__init__", "open"):
+        f = cctx.member("File", name)
+        key = "File." + name
+        if f is None:
+            rep.bad(R7, key, "required mechanism not found")
+            continue
+        bad = None
+        n = 0
+        for p in cctx.paths(f, "File", max_paths=30000):
+            if not p.normal:
+                continue
+            vals = [v for (r, a), v in p.heap.items() if a == field and (r == ("self",) or (r and r[0] == "inst" and r[1] == "File"))]
+            if not vals:
+                continue
+            n += 1
+            if vals[0].t != ("param", "auto_update_timestamps"):
+                bad = (p, "the file's switch is set to %s, not to the auto_update_timestamps argument" % show(vals[0].t)[:80])
+        rep.check(R7, key, bad is None and n > 0, bad[1] if bad else "the constructor path never sets the switch", site=f.file + ":%d" % f.node.lineno,
+                  detail=describe_path(bad[0], 20) if bad else None)
